@@ -238,9 +238,13 @@ def generate(rng, tier, index):
         names = sorted(files)
         n_faults = 1 if construction == "system-fault" else rng.choice([0, 0, 1, 1, 1, 2])
         for name in rng.sample(names, min(n_faults, len(names))):
-            kind = rng.choice(["parse", "cb", "undecodable", "natural"])
+            kind = rng.choice(["parse", "cb", "undecodable", "natural", "parse-later"])
             if kind == "parse":
                 sc["plan"].append({"site": "parse", "file": name, "ord": 1, "act": "badtok"})
+            elif kind == "parse-later":
+                # the parser fails in a later pass of a fix (rescan after a token fix, or the
+                # next fix level), i.e. after earlier passes have already fixed something
+                sc["plan"].append({"site": "parse", "file": name, "ord": rng.choice([2, 2, 3]), "act": "badtok"})
             elif kind == "cb":
                 sc["plan"].append({"site": "cb/md047/next_line", "file": name, "ord": 1, "act": rng.choice(["raise", "raise_after"]), "exc": rng.choice(["RuntimeError", "IndexError", "AssertionError"])})
             elif kind == "undecodable":
